@@ -131,6 +131,19 @@ func init() {
 		}}
 }
 
+func init() {
+	Checks["C12"] = &Check{Level: "fault_enumeration", Run: CheckC12, QuickBudget: 240, ThoroughBudget: 1500,
+		ReplayBody: func(h string) explore.Body {
+			for _, sc := range c12Scripts(true) {
+				if "C12/"+sc.name == h {
+					sc := sc
+					return sc.body
+				}
+			}
+			return nil
+		}}
+}
+
 // kReplay re-executes an operation-history counterexample of the K space.
 func kReplay(prop string) func(v *Viol) []string {
 	return func(v *Viol) []string {
